@@ -51,25 +51,6 @@ theorem C10_ack_budget (cfg : Cfg) (mid token : Nat) (drawFn : Nat → Nat) (es 
   have h0 : oppCount R M (init cfg mid token drawFn) = 0 := rfl
   omega
 
-theorem conRecvs_eq_zero {R : Remote} {M : Nat} {es : List TEv}
-    (hno : ∀ e ∈ es, ∀ mcl w, e.ev = .recv R mcl w → w.mtype = .con → w.mid ≠ M) :
-    conRecvs R M es = 0 := by
-  induction es with
-  | nil => rfl
-  | cons e es ih =>
-    have h1 : conRecvs R M (e :: es) = conRecv R M e.ev + conRecvs R M es := by simp [conRecvs]
-    rw [h1, ih (fun x hx => hno x (List.mem_cons_of_mem _ hx)), Nat.add_zero]
-    have h2 := hno e List.mem_cons_self
-    cases he : e.ev with
-    | recv r mcl w =>
-      simp only [conRecv]
-      split
-      · rename_i hc
-        obtain ⟨rfl, hcon, hmid⟩ := hc
-        exact absurd hmid (h2 mcl w he hcon)
-      · rfl
-    | _ => rfl
-
 /-- **C10 (nothing but a confirmable message is acknowledged).** If, in a run from the initial
 state (`AppOk`), no confirmable message with ID `M` was received from `R`, then no ACK with ID `M`
 is ever sent to `R`: NON requests, NON responses matched or not, ACKs and Resets are never
